@@ -85,3 +85,146 @@ pub fn show_opt<T>(o: Option<T>, f: impl Fn(T) -> String) -> String {
         Some(x) => format!("Some:{}", f(x)),
     }
 }
+
+// ---- records, questions (syntax: see /verif/ocaml/vrr.ml) ----
+
+pub fn name_tok(n: &DomainName) -> String {
+    tok_of_labels(&n.labels)
+}
+
+pub fn rdata_of_tok(rtype: RecordType, s: &str) -> RecordTypeWithData {
+    use bytes::Bytes;
+    let body = &s[1..];
+    let parts: Vec<&str> = body.split(',').collect();
+    let kind = s.as_bytes()[0];
+    let nm = |t: &str| name_of_tok(t);
+    match (rtype, kind) {
+        (RecordType::A, b'a') => RecordTypeWithData::A { address: std::net::Ipv4Addr::from(body.parse::<u32>().unwrap()) },
+        (RecordType::NS, b'n') => RecordTypeWithData::NS { nsdname: nm(body) },
+        (RecordType::MD, b'n') => RecordTypeWithData::MD { madname: nm(body) },
+        (RecordType::MF, b'n') => RecordTypeWithData::MF { madname: nm(body) },
+        (RecordType::CNAME, b'n') => RecordTypeWithData::CNAME { cname: nm(body) },
+        (RecordType::MB, b'n') => RecordTypeWithData::MB { madname: nm(body) },
+        (RecordType::MG, b'n') => RecordTypeWithData::MG { mdmname: nm(body) },
+        (RecordType::MR, b'n') => RecordTypeWithData::MR { newname: nm(body) },
+        (RecordType::PTR, b'n') => RecordTypeWithData::PTR { ptrdname: nm(body) },
+        (RecordType::SOA, b's') => RecordTypeWithData::SOA {
+            mname: nm(parts[0]),
+            rname: nm(parts[1]),
+            serial: parts[2].parse().unwrap(),
+            refresh: parts[3].parse().unwrap(),
+            retry: parts[4].parse().unwrap(),
+            expire: parts[5].parse().unwrap(),
+            minimum: parts[6].parse().unwrap(),
+        },
+        (RecordType::NULL, b'o') => RecordTypeWithData::NULL { octets: Bytes::from(bytes_of_hex(body)) },
+        (RecordType::WKS, b'o') => RecordTypeWithData::WKS { octets: Bytes::from(bytes_of_hex(body)) },
+        (RecordType::HINFO, b'o') => RecordTypeWithData::HINFO { octets: Bytes::from(bytes_of_hex(body)) },
+        (RecordType::TXT, b'o') => RecordTypeWithData::TXT { octets: Bytes::from(bytes_of_hex(body)) },
+        (RecordType::Unknown(tag), b'o') => RecordTypeWithData::Unknown { tag, octets: Bytes::from(bytes_of_hex(body)) },
+        (RecordType::MINFO, b'i') => RecordTypeWithData::MINFO { rmailbx: nm(parts[0]), emailbx: nm(parts[1]) },
+        (RecordType::MX, b'x') => RecordTypeWithData::MX { preference: parts[0].parse().unwrap(), exchange: nm(parts[1]) },
+        (RecordType::AAAA, b'q') => {
+            let b = bytes_of_hex(body);
+            let mut a = [0u8; 16];
+            a.copy_from_slice(&b);
+            RecordTypeWithData::AAAA { address: std::net::Ipv6Addr::from(a) }
+        }
+        (RecordType::SRV, b'v') => RecordTypeWithData::SRV {
+            priority: parts[0].parse().unwrap(),
+            weight: parts[1].parse().unwrap(),
+            port: parts[2].parse().unwrap(),
+            target: nm(parts[3]),
+        },
+        _ => panic!("rdata token does not fit type"),
+    }
+}
+
+pub fn tok_of_rdata(d: &RecordTypeWithData) -> String {
+    match d {
+        RecordTypeWithData::A { address } => format!("a{}", u32::from(*address)),
+        RecordTypeWithData::NS { nsdname: n }
+        | RecordTypeWithData::MD { madname: n }
+        | RecordTypeWithData::MF { madname: n }
+        | RecordTypeWithData::CNAME { cname: n }
+        | RecordTypeWithData::MB { madname: n }
+        | RecordTypeWithData::MG { mdmname: n }
+        | RecordTypeWithData::MR { newname: n }
+        | RecordTypeWithData::PTR { ptrdname: n } => format!("n{}", name_tok(n)),
+        RecordTypeWithData::SOA { mname, rname, serial, refresh, retry, expire, minimum } => format!(
+            "s{},{},{serial},{refresh},{retry},{expire},{minimum}",
+            name_tok(mname),
+            name_tok(rname)
+        ),
+        RecordTypeWithData::NULL { octets }
+        | RecordTypeWithData::WKS { octets }
+        | RecordTypeWithData::HINFO { octets }
+        | RecordTypeWithData::TXT { octets }
+        | RecordTypeWithData::Unknown { octets, .. } => format!("o{}", hex_of_bytes(octets)),
+        RecordTypeWithData::MINFO { rmailbx, emailbx } => format!("i{},{}", name_tok(rmailbx), name_tok(emailbx)),
+        RecordTypeWithData::MX { preference, exchange } => format!("x{preference},{}", name_tok(exchange)),
+        RecordTypeWithData::AAAA { address } => {
+            let mut s = String::from("q");
+            for b in address.octets() {
+                s.push_str(&format!("{b:02x}"));
+            }
+            s
+        }
+        RecordTypeWithData::SRV { priority, weight, port, target } => {
+            format!("v{priority},{weight},{port},{}", name_tok(target))
+        }
+    }
+}
+
+pub fn rr_of_tok(s: &str) -> ResourceRecord {
+    let p: Vec<&str> = s.split(':').collect();
+    assert!(p.len() == 5, "rr token");
+    let rtype = RecordType::from(p[1].parse::<u16>().unwrap());
+    ResourceRecord {
+        name: name_of_tok(p[0]),
+        rtype_with_data: rdata_of_tok(rtype, p[4]),
+        rclass: RecordClass::from(p[2].parse::<u16>().unwrap()),
+        ttl: p[3].parse().unwrap(),
+    }
+}
+
+pub fn tok_of_rr(r: &ResourceRecord) -> String {
+    format!(
+        "{}:{}:{}:{}:{}",
+        name_tok(&r.name),
+        u16::from(r.rtype_with_data.rtype()),
+        u16::from(r.rclass),
+        r.ttl,
+        tok_of_rdata(&r.rtype_with_data)
+    )
+}
+
+pub fn rrs_of_tok(s: &str) -> Vec<ResourceRecord> {
+    if s == "_" {
+        Vec::new()
+    } else {
+        s.split(';').map(rr_of_tok).collect()
+    }
+}
+
+pub fn tok_of_rrs(l: &[ResourceRecord]) -> String {
+    if l.is_empty() {
+        "_".to_string()
+    } else {
+        l.iter().map(tok_of_rr).collect::<Vec<_>>().join(";")
+    }
+}
+
+pub fn question_of_tok(s: &str) -> Question {
+    let p: Vec<&str> = s.split(':').collect();
+    assert!(p.len() == 3, "question token");
+    Question {
+        name: name_of_tok(p[0]),
+        qtype: QueryType::from(p[1].parse::<u16>().unwrap()),
+        qclass: QueryClass::from(p[2].parse::<u16>().unwrap()),
+    }
+}
+
+pub fn tok_of_question(q: &Question) -> String {
+    format!("{}:{}:{}", name_tok(&q.name), u16::from(q.qtype), u16::from(q.qclass))
+}
